@@ -305,10 +305,10 @@ def run_property(prop, obligations, tier, seed=0, workers=None, assumptions=(), 
             for code, lst in by_code.items():
                 lst.sort()
                 reproduced = [(ci, path, res) for ci, path, res in lst if res and res.get("outcome") == "fail"]
+                keep = reproduced[0][1] if reproduced else None
                 for ci, path, res in lst:
-                    if not reproduced or (ci, path, res) != reproduced[0]:
-                        if os.path.exists(path):
-                            os.remove(path)
+                    if path != keep and os.path.exists(path):
+                        os.remove(path)
                 if reproduced:
                     ci, path, res = reproduced[0]
                     validated += 1
